@@ -16,6 +16,7 @@ from .. import ber, env, privxf
 from ..rig import OID, World, drive, drive_agen
 
 PROP = "C11"
+CHILD_ENV = {"VF_VIRTUAL_MONOTONIC": "1"}  # seconds pass between requests without anybody waiting
 LEVEL = "exploration"
 SHARDS = {"quick": 4, "thorough": 16}
 TIME_CAP = {"quick": 50, "thorough": 600}
@@ -301,6 +302,8 @@ def run(R):
     n = N_CASES[R.tier]
     if R.shard == 1 % R.nshards:
         ambiguous_pairs(R)
+    if R.shard == 2 % R.nshards:
+        later_requests(R)
     for i in range(n):
         if not R.mine(i):
             continue
@@ -340,6 +343,57 @@ def run(R):
             run_noauth_priv(R, variant, priv_pw, engine_id, marker)
 
 
+def later_requests(R):
+    """A client keeps talking for a while: seconds pass between its requests (its engine
+    time estimate moves on) and the agent's clock ticks between receiving a request and
+    answering it (the response carries another engine time than the request).  Every
+    request is encrypted under the boots/time it announces, every response decrypted with
+    the boots/time/salt IT carries."""
+    db = {BASE + (i, 0): ("str", b"later-%d-" % i + hashlib.sha256(b"l%d" % i).digest()[:8]) for i in range(1, 4)}
+    for level in ("v3-md5-priv", "v3-sha1-priv"):
+        for variant in VARIANTS:
+            env.CLOCK.freeze(1_700_000_000.0)
+            agent_clock = env.Clock()
+            agent_clock.now = 7_000_000.0
+            w = World(level, db, agent_kwargs={"boots": 3}, cred_kwargs={"variant": variant}, clock=agent_clock)
+            inner = w.agent.handle
+
+            def ticking(data):
+                agent_clock.now += 1.0  # the device is slow: its clock ticks before it answers
+                return inner(data)
+
+            w.set_responder(ticking)
+            case = {"class": "later-requests", "level": level, "variant": variant}
+            for step in range(7):
+                privxf.CALLS.clear()
+                w.seam.reset(budget=8)
+                res = rig.outcome(lambda: drive(w.client.get(OID(BASE + (1 + step % 3, 0)))))
+                R.case(("c11-later", level, variant, step), True)
+                if res[0] != "ok" or rig.to_tuple(res[1]) != db[BASE + (1 + step % 3, 0)]:
+                    R.violation(case, "request %d of a client that keeps talking (%.1f s after its first): %r" % (step + 1, step * 1.7, res[1]), None)
+                    break
+                enc = [c for c in privxf.CALLS if c["op"] == "encrypt"]
+                dec = [c for c in privxf.CALLS if c["op"] == "decrypt"]
+                bad = None
+                for call, raw in zip(enc, [r for r in w.seam.requests if ber.decode_message(r)["usm"]["user"]]):
+                    u = ber.decode_message(raw)["usm"]
+                    if (call["boots"], call["time"]) != (u["boots"], u["time"]):
+                        bad = "request %d was encrypted under boots/time %r but announces %r" % (step + 1, (call["boots"], call["time"]), (u["boots"], u["time"]))
+                for call, raw in zip(dec, [r for r in w.seam.responses if "encrypted" in ber.decode_message(r)]):
+                    u = ber.decode_message(raw)["usm"]
+                    if (call["boots"], call["time"], call["salt"]) != (u["boots"], u["time"], u["priv"]):
+                        bad = "response %d was decrypted with boots/time %r, it carries %r" % (step + 1, (call["boots"], call["time"]), (u["boots"], u["time"]))
+                if bad or not enc or not dec:
+                    R.violation(case, bad or "no plug-in call observed for request %d" % (step + 1), None)
+                    break
+                # 1.7 s pass for everybody
+                env.CLOCK.advance(1.7)
+                agent_clock.now += 1.7
+            else:
+                R.mon["later_request_series_ok"] += 1
+    env.CLOCK.freeze(1_700_000_000.0)
+
+
 def ambiguous_pairs(R):
     """Two (password, engine id) pairs in ONE process whose concatenation - plain or with
     a separator octet - is the same byte string: anything remembered under a joined key
@@ -368,6 +422,9 @@ def replay(R, v):
     c = v["case"]
     h = lambda k: bytes.fromhex(c[k][4:])  # noqa: E731
     PADDING[0] = bytes.fromhex(c.get("padding", "hex:")[4:])
+    if c.get("class") == "later-requests":
+        later_requests(R)
+        return
     if c.get("class") == "priv-without-auth":
         run_noauth_priv(R, c["variant"], h("priv_pw"), h("engine_id"), h("marker"))
         return
